@@ -62,16 +62,31 @@ SPELLINGS = dict(
     # errors signalled by a primitive / by `error`: all non-continuable, condition canonicalised to 999 by (payload c)
     primerr=["(car 999)", "(error \"boom\" 999 1)", "(c:error \"boom\" 999)", "(s23:error \"boom\" 999)", "(vector-ref (vector 1) 999)",
              "(raise (list 999))", "(999 1)"],
+    guard=["guard"],
     payload=["(if (number? c) c 999)",
              "(cond ((number? c) c) ((error-object? c) (if (and (string? (error-object-message c)) (list? (error-object-irritants c))) 999 997)) (else 999))"],
 )
 LIGHT_OK = lambda sp: not any(x in sp for x in ("r5:", "t18:", "s23:"))
-VAR = dict(salt=0, light=False, fixed=None)
+VAR = dict(salt=0, light=False, fixed=None, override=None)
+
+
+def lib_override(prefix):
+    """every construct (macros too: guard, parameterize) taken from ONE re-exporting library imported with `prefix`"""
+    return dict(callcc=prefix + "call/cc", wind=prefix + "dynamic-wind", handler=prefix + "with-exception-handler", raise_=prefix + "raise",
+                raisec=prefix + "raise-continuable", parameterize=prefix + "parameterize", mkparam="(%smake-parameter 0)" % prefix,
+                values=prefix + "values", cwv=prefix + "call-with-values", guard=prefix + "guard", primerr="(%serror \"boom\" 999)" % prefix)
+
+
+IMPORTS_LIBS = ("(import (rename (only (chibi) %dk) (%dk c06-dk)) (prefix (only (scheme small) call/cc dynamic-wind with-exception-handler raise raise-continuable "
+                "parameterize make-parameter values call-with-values guard error) sm:) (prefix (only (scheme red) call/cc dynamic-wind "
+                "with-exception-handler raise raise-continuable parameterize make-parameter values call-with-values guard error) red:))")
 
 
 def pick(kind, site=0):
     """spelling of `kind` at `site` for the script being printed: a stable function of (script, kind, site)"""
     import zlib
+    if VAR["override"] and kind in VAR["override"]:
+        return VAR["override"][kind]
     opts = SPELLINGS[kind]
     if VAR["light"]:
         opts = [o for o in opts if LIGHT_OK(o)]
@@ -159,7 +174,7 @@ def scheme(e):
                       "((eqv? c 12345) 0) (%s %s)" % (test, body),
                       "(%s => (lambda (x) %s))" % (test, body),
                       "((eqv? c 12345)) (%s %s)" % (test, body)][style]
-        return "(guard (c %s) %s)" % (clause, scheme(e[4]))
+        return "(%s (c %s) %s)" % (pick("guard"), clause, scheme(e[4]))
     raise ValueError(t)
 
 
@@ -198,11 +213,12 @@ def model_events(s, line):
     return stc, evs
 
 
-def program(e, light=False, fixed=None):
+def program(e, light=False, fixed=None, override=None):
     import zlib
     VAR["salt"] = zlib.crc32(" ".join(tokens(e)).encode())
     VAR["light"] = light
     VAR["fixed"] = fixed
+    VAR["override"] = override
     VAR["nerr"] = 0
     case = CASE
     if has_merge(e):
@@ -210,8 +226,8 @@ def program(e, light=False, fixed=None):
     return case % (pick("mkparam", 0), pick("mkparam", 1), pick("payload"), scheme(e))
 
 
-def standalone(e, fixed=None):
-    return "(import (scheme base) (scheme write)) %s (write %s) (newline)" % (IMPORTS_FULL, program(e, fixed=fixed))
+def standalone(e, fixed=None, override=None):
+    return "(import (scheme base) (scheme write)) %s (write %s) (newline)" % (IMPORTS_LIBS if override else IMPORTS_FULL, program(e, fixed=fixed, override=override))
 
 
 def size(e):
@@ -515,7 +531,7 @@ def alias_identity(ctx, d):
             checks.append((lib, n, "(eq? l%d:%s %s)" % (j, n, ALIAS_REF.get(n, n))))
     prog = "(import (scheme base) (scheme write) %s)\n(write (list %s))\n" % (" ".join(imports), " ".join(c[2] for c in checks))
     try:
-        r = B.run_chibi(d, ["/dev/stdin"], input=prog, timeout=60)
+        r = B.run_chibi(d, ["/dev/stdin"], input=prog, timeout=180)
         out = r.stdout.strip()
     except subprocess.TimeoutExpired:
         out = "TIMEOUT"
@@ -858,6 +874,61 @@ def values_cases(ctx, exe, d):
         elif m != want:
             _broken_once(ctx, "correspondence:values", "ValuesModel differs from the code (code agrees with R7RS): %s model=%s impl=%s" % (e, m, i))
     ctx.sample(dict(kind="values", request=reqs[-1], expr=exprs[-1], model=mo[-1], impl=io[-1]))
+
+
+# ------------------------------------------------------------------------------------------------ green threads: per-thread dynamic state
+# the wind point register and the parameter alist are PER THREAD (context.dk / context.params): a binding made by one
+# green thread's parameterize must not be seen by another thread that runs while it is in force, and an escape in one
+# thread must not run another thread's after thunks.  Hand-computed expectations; per-thread order only (the
+# interleaving itself is the scheduler's business).
+THREAD_PROGRAMS = [
+    ("parameterize-per-thread",
+     "(import (scheme base) (scheme write) (srfi 18)) (define p (make-parameter 1)) (define ra #f) (define rb #f) (define rc #f) "
+     "(define (worker v set) (lambda () (parameterize ((p v)) (thread-yield!) (let ((x (p))) (thread-yield!) (set (list x (p))))))) "
+     "(define ta (make-thread (worker 10 (lambda (x) (set! ra x))))) (define tb (make-thread (worker 20 (lambda (x) (set! rb x))))) "
+     "(thread-start! ta) (thread-start! tb) "
+     "(parameterize ((p 5)) (thread-yield!) (set! rc (p)) (thread-join! ta) (thread-join! tb) (set! rc (list rc (p)))) "
+     "(write (list ra rb rc (p)))",
+     lambda out: out.strip() == "((10 10) (20 20) (5 5) 1)", "((10 10) (20 20) (5 5) 1)"),
+    ("parameterize-per-thread-srfi39-converter",
+     "(import (scheme base) (scheme write) (srfi 18) (prefix (srfi 39) s39:)) (define p (s39:make-parameter 1 (lambda (x) (* x 2)))) (define ra #f) (define rc #f) "
+     "(define ta (make-thread (lambda () (s39:parameterize ((p 10)) (thread-yield!) (set! ra (p)) (thread-yield!) (set! ra (list ra (p))))))) "
+     "(thread-start! ta) (thread-yield!) (set! rc (p)) (s39:parameterize ((p 3)) (thread-yield!) (set! rc (list rc (p)))) (thread-join! ta) "
+     "(write (list ra rc (p)))",
+     lambda out: out.strip() == "((20 20) (2 6) 2)", "((20 20) (2 6) 2)"),
+    ("winds-per-thread",
+     "(import (scheme base) (scheme write) (srfi 18)) (define tr (list)) (define (push! x) (set! tr (cons x tr))) "
+     "(define ta (make-thread (lambda () (dynamic-wind (lambda () (push! 11)) (lambda () (thread-yield!) (thread-yield!) (push! 12)) (lambda () (push! 13)))))) "
+     "(thread-start! ta) "
+     "(push! (call-with-current-continuation (lambda (k) (dynamic-wind (lambda () (push! 1)) (lambda () (thread-yield!) (k 2)) (lambda () (push! 3)))))) "
+     "(thread-join! ta) (write (reverse tr))",
+     lambda out: (lambda xs: sorted(xs) == [1, 2, 3, 11, 12, 13] and [x for x in xs if x < 10] == [1, 3, 2] and [x for x in xs if x > 10] == [11, 12, 13])(
+         [int(x) for x in out.strip().strip("()").split()] if out.strip().startswith("(") else []),
+     "a permutation of (1 3 2 11 12 13) keeping 1 3 2 and 11 12 13 in order"),
+]
+
+
+def thread_state(ctx, d):
+    import subprocess
+    for name, prog, ok, want in THREAD_PROGRAMS:
+        try:
+            r = B.run_chibi(d, ["/dev/stdin"], input=prog, timeout=30)
+            out, rc, err = r.stdout, r.returncode, r.stderr
+        except subprocess.TimeoutExpired:
+            out, rc, err = "TIMEOUT", "timeout", ""
+        if "srfi 18" in err and "couldn't find" in err:
+            ctx.assume("per-thread dynamic state stream SKIPPED: no (srfi 18) in this build")
+            return
+        ctx.count(1, key=("threads", name), nontrivial=True)
+        ctx.cov["traces_validated_against_impl"] += 1
+        try:
+            good = rc == 0 and ok(out)
+        except ValueError:
+            good = False
+        if not good:
+            ctx.violation("thread-dynamic-state:" + name, input=prog, expected=want, observed=dict(stdout=out[:300], rc=rc, stderr=err[-200:]),
+                          replay="printf '%%s' %s | LD_LIBRARY_PATH=%s CHIBI_MODULE_PATH=%s/lib CHIBI_IGNORE_SYSTEM_PATH=1 %s/chibi-scheme /dev/stdin; echo rc=$?" % (
+                              shlex.quote(prog), d, d, d))
 
 
 # ------------------------------------------------------------------------------------------------ RESUMECC on a stack that must grow
@@ -1222,10 +1293,12 @@ def gc_bodies(ctx, m1, m2):
     wc = [relabel(s) for n in range(4, 8) for s in enum_grammar(n, memo=m1, **WIND_CORE) if reenters(s)]
     dc = [relabel(s) for n in range(3, 6) for s in enum_grammar(n, memo=m2, **DYN_CORE) if reenters(s)]
     k = 1 if not ctx.thorough else 6
-    out += rng.sample(wc, min(len(wc), 20 * k))
-    out += rng.sample(dc, min(len(dc), 16 * k))
+    out += rng.sample(wc, min(len(wc), (12 if k == 1 else 120)))
+    out += rng.sample(dc, min(len(dc), (10 if k == 1 else 96)))
+    sf = sibling_family(rng, False)[:726]
+    out += rng.sample(sf, 6 * k)                       # sibling / ping-pong jumps under forced collections
     got = 0
-    while got < 10 * k:
+    while got < (6 if k == 1 else 60):
         b = gen_random(rng, rng.choice([8, 10, 12, 14, 18]), Fresh())
         hs = heads(b)
         if "callcc" in hs and "throw" in hs and hs & {"wind", "windp", "param", "handler", "guard"}:
@@ -1238,7 +1311,7 @@ def gc_bodies(ctx, m1, m2):
 
 
 # ------------------------------------------------------------------------------------------------ main
-def run_scripts(ctx, exe, d, bodies, label):
+def run_scripts(ctx, exe, d, bodies, label, override=None):
     """model first (only scripts the machine finishes are sent to chibi), then chibi; compare traces"""
     t_start = time.time()
     scripts = [wrap(b) for b in bodies]
@@ -1279,7 +1352,8 @@ def run_scripts(ctx, exe, d, bodies, label):
     # every such case costs one timeout — stop the stream after a few (the violation is established)
     io, hard = [], 0
     if True:
-        io, hard = run_chibi(d, [program(s) for (_, s, _) in keep], prelude_extra=IMPORTS_FULL, stop=getattr(ctx, "_c06_stop", False))
+        io, hard = run_chibi(d, [program(s, override=override) for (_, s, _) in keep], prelude_extra=(IMPORTS_LIBS if override else IMPORTS_FULL),
+                             stop=getattr(ctx, "_c06_stop", False))
     if len(io) < len(keep):
         ctx.note("%s: stopped after %d of %d scripts (%d crashes/timeouts so far)" % (label, len(io), len(keep), hard))
         keep = keep[:len(io)]
@@ -1287,7 +1361,7 @@ def run_scripts(ctx, exe, d, bodies, label):
     for (b, s, evs), i in zip(keep, io):
         hs = heads(b)
         nontriv = bool(hs & {"throw", "raise", "raisec"}) and bool(hs & {"wind", "windp", "param", "handler", "guard"})
-        ctx.count(1, key=tuple(tokens(s)), nontrivial=nontriv)
+        ctx.count(1, key=tuple(tokens(s)) + ((label,) if override else ()), nontrivial=nontriv)
         ctx.cov["traces_validated_against_impl"] += 1
         got = parse_impl(i) if i is not None else None
         if got is None or canon_points(got) != evs:
@@ -1300,10 +1374,10 @@ def run_scripts(ctx, exe, d, bodies, label):
     fmt = lambda evs: " ".join("%d:%d@%d/%d" % e if e[3] >= 0 else "%d:%d" % e[:2] for e in evs)
     for sz, b, s, evs, i in bad[:25]:
         cls = classify(evs, i)
-        ctx.violation("control-trace:" + cls, input=" ".join(tokens(s)), scheme=standalone(s),
+        ctx.violation("control-trace:" + cls, input=" ".join(tokens(s)), scheme=standalone(s, override=override),
                       expected=fmt(evs), observed=i, stream=label, event_format="kind:value@depth/point of (%dk) right after the event",
                       replay="printf '%%s' %s | LD_LIBRARY_PATH=%s CHIBI_MODULE_PATH=%s/lib CHIBI_IGNORE_SYSTEM_PATH=1 %s/chibi-scheme /dev/stdin" % (
-                          shlex.quote(standalone(s)), d, d, d))
+                          shlex.quote(standalone(s, override=override)), d, d, d))
     if dkbad:
         # same events, but the wind point register (%dk) read after an event is not the machine's dk (theorem
         # dk_is_continuation_extent: the innermost dynamic-wind frame of the current continuation).  Not by itself an
@@ -1469,7 +1543,7 @@ def run(ctx):
                        "(%dk) read right after it (depth relative to the script start + identity in order of first sight), compared with the "
                        "machine's dk component (stepped in the OCaml driver). Stream sibling-jumps: >= 2 jumps between sibling extents of equal "
                        "depth (cousins, nephews, parameterize extents), the second taken from inside the re-entered extent (to the first, to a "
-                       "third sibling, to the root, to a continuation captured after the re-entry), ping-pong up to 6 times: 363 structured + "
+                       "third sibling, to the root, to a continuation captured after the re-entry), ping-pong up to 6 times: 726 structured + "
                        "500 (thorough 12000) sampled. RESUMECC on a stack that must grow (raw %call/cc continuation of a deep recursion "
                        "invoked from another green thread); growth branch of sexp_restore_stack vs the model; values/call-with-values on 0-4 values.")
     from gen import c06_travel, c06_shapes, c06_exports
@@ -1489,10 +1563,16 @@ def run(ctx):
     callback_escapes(ctx, d, exe)
     alias_identity(ctx, d)
     resumecc_growth(ctx)
+    thread_state(ctx, d)
     values_cases(ctx, exe, d)
     cb = corpus_bodies()
     if cb:
         run_scripts(ctx, exe, d, cb, "corpus")
+    # every construct (the macros guard / parameterize too) through the re-exporting libraries (scheme small) and (scheme red)
+    sib = sibling_family(rng, ctx.thorough)
+    lb = cb + templates(rng) + rng.sample(sib[:726], 12)
+    for pfx, lab in (("sm:", "lib-scheme-small"), ("red:", "lib-scheme-red")):
+        run_scripts(ctx, exe, d, lb, lab, override=lib_override(pfx))
     ex = []
     for n in range(1, (4 if not ctx.thorough else 5)):
         ex += [relabel(s) for s in enum_shapes(n)]
@@ -1511,19 +1591,19 @@ def run(ctx):
     for n in range(1, (6 if not ctx.thorough else 7)):
         ex3 += [relabel(s) for s in enum_grammar(n, memo=m2, **DYN_CORE)]
     run_scripts(ctx, exe, d, ex3, "exhaustive-dyn-core")
-    run_scripts(ctx, exe, d, sibling_family(rng, ctx.thorough), "sibling-jumps")
+    run_scripts(ctx, exe, d, sib, "sibling-jumps")
     tp = []
     for _ in range(60 if not ctx.thorough else 1500):
         tp += templates(rng)
     run_scripts(ctx, exe, d, tp, "templates")
     rnd = []
-    for _ in range(2500 if not ctx.thorough else 40000):
+    for _ in range(2000 if not ctx.thorough else 40000):
         rnd.append(gen_random(rng, rng.choice([4, 6, 8, 10, 12, 14, 18, 22]), Fresh()))
     run_scripts(ctx, exe, d, rnd, "random")
     if not getattr(ctx, "_c06_stop", False):
         gc_stream(ctx, exe, gc_bodies(ctx, m1, m2))
     ctx.assume("escapes from inside a before/after thunk are excluded (R7RS leaves them unspecified); thunks only push trace symbols")
-    ctx.assume("threads x continuations, and the behaviour of an exception nobody handles at the REPL top level, are outside this check")
+    ctx.assume("continuations invoked across threads, and the behaviour of an exception nobody handles at the REPL top level, are outside this check")
     ctx.assume("errors detected by primitives ((car 999)) are signalled as non-continuable exceptions to the current handler (chibi's behaviour; R7RS only says 'it is an error')")
     ctx.trust("the forced-collection / allocation-log / poisoning hooks of /repo gc.c (SEXP_USE_VERIF_HOOKS) and ASan as the detector of "
               "touching a swept object; the hand-computed results of the 10 non-DSL programs of the forced-gc stream")
@@ -1571,9 +1651,16 @@ def replay(ctx, data):
         callback_escapes(ctx, d, exe)
     elif sig.startswith("stack-copy"):
         stack_cases(ctx, exe, d)
+    elif sig.startswith("values"):
+        values_cases(ctx, exe, d)
+    elif sig.startswith("resumecc-growth"):
+        resumecc_growth(ctx)
     else:
         from gen import c06_travel, c06_shapes
         c06_travel.regen(ctx)
         c06_shapes.check(ctx)
+        from gen import c06_exports
+        c06_exports.check(ctx)
+        alias_identity(ctx, d)
         ctx.coq_obligations("Properties_C06")
     return core.finish(ctx)
